@@ -87,7 +87,9 @@ def run(ctx):
         "(c17_gen.mutate), and directed enumerations over the schema (c17_gen.directed: pairs of fields under one "
         "response key under same/different-object/abstract parents at one and two levels, duplicated fields with "
         "argument variants, every literal kind at every list depth and in input fields, variables of every type "
-        "variant at top level / in lists / in input fields with null and non-null defaults, custom-scalar literals, "
+        "variant at top level / in lists / in input fields with null and non-null defaults, custom-scalar literals "
+        "(null, defined and undefined variables at every place inside list and object literals written for nullable, "
+        "non-null and list-of-non-null custom scalar arguments), "
         "every directive at every location once and twice with argument variants, subscription shapes, fragment "
         "graphs (cycles of length 1-4 through inline fragments and fields, diamonds, side cycles), every (parent, "
         "type condition) pair, leaf/composite selections, introspection fields).  per_rule counts, per rule of "
@@ -104,7 +106,7 @@ def run(ctx):
         "where the prose is ambiguous graphql-js 16's reading is taken (comments name the paragraphs): fragments must "
         "be used = reachable from an operation; a spread on the parent type itself is always possible "
         "(xp_same_type_spread_always_possible); list entries written for a non-list type are expected to have that "
-        "type, object fields written for a custom scalar have no expected type; Float literals must be finite",
+        "type made nullable, object fields written for a custom scalar have no expected type; Float literals must be finite",
         "deliberate differences are parameters: xp_reject_undefined_root_operation, xp_subscription_skip_include_rule, "
         "xp_same_type_spread_always_possible are modelled and on; xp_defer_rules is NOT modelled: the generator never "
         "writes @defer or @stream (they are not defined by the generated schemas)",
